@@ -88,12 +88,17 @@ CONTEXTS = {
     "f(mrowN)+a": lambda n: row(mi("f"), mo("("), row(*n), mo(")"), mo("+"), mi("a")),
     "(mrowN)":  lambda n: row(mo("("), row(*n), mo(")")),
     "cell":    lambda n: el("mtable", el("mtr", el("mtd", *n), el("mtd", mi("b")))),
+    # rows that hold a list comma of their own somewhere else: an argument list with the number as one argument, a number after a call
+    "f(x,N)":  lambda n: row(mi("f"), mo("("), mi("x"), mo(","), *n, mo(")")),
+    "f(N,x)":  lambda n: row(mi("f"), mo("("), *n, mo(","), mi("x"), mo(")")),
+    "g(a,b)=N": lambda n: row(mi("g"), mo("("), mi("a"), mo(","), mi("b"), mo(")"), mo("="), *n),
 }
-FENCED = ("f(N)", "f(mrowN)", "N;N", "P=(mrowN)", "x∈[mrowN]", "A∪{N}", "f(mrowN)+a", "(mrowN)")
-MARK_LAST = ("alone", "a+N", "sqrt", "x^N", "y=N.", "y=N,", "y=N;")
+FENCED = ("f(N)", "f(mrowN)", "N;N", "P=(mrowN)", "x∈[mrowN]", "A∪{N}", "f(mrowN)+a", "(mrowN)", "f(x,N)", "f(N,x)")
+MARK_LAST = ("alone", "a+N", "sqrt", "x^N", "y=N.", "y=N,", "y=N;", "g(a,b)=N")
 CTX_CLASS = {"alone": "row", "a+N": "row", "N+a": "row", "f(N)": "fenced", "f(mrowN)": "fenced", "N;N": "fenced",
              "P=(mrowN)": "fenced", "x∈[mrowN]": "fenced", "A∪{N}": "fenced", "f(mrowN)+a": "fenced", "(mrowN)": "fenced",
-             "x^N": "2d", "N/2": "2d", "sqrt": "2d", "cell": "2d", "y=N.": "sentence-final", "y=N,": "before-comma", "y=N;": "before-semicolon"}
+             "x^N": "2d", "N/2": "2d", "sqrt": "2d", "cell": "2d", "y=N.": "sentence-final", "y=N,": "before-comma", "y=N;": "before-semicolon",
+             "f(x,N)": "argument-list", "f(N,x)": "argument-list", "g(a,b)=N": "after-list"}
 
 
 def strip(t):
@@ -385,7 +390,7 @@ def main(tier):
             run.nontriv(h)
     return run.finish(
         rule="numbers = {1,2,3-digit lead} x {0..3 groups of 3} x {no fraction, trailing mark, fraction of 1..4 (thorough: 5) digits} + "
-             "leading-mark decimals; every separator a token of its own, each as <mo> or <mtext> (2^k spellings); 11 contexts; locales "
+             "leading-mark decimals; every separator a token of its own, each as <mo> or <mtext> (2^k spellings); 21 contexts (sums, fences, argument lists, 2-D positions, sentence ends); locales "
              "US, EU(DecimalSeparator=','), SV(Language=sv), CH(de-ch, both . and ' as group mark; thorough: also no-break space groups); "
              "25 near-miss sequences x 5 contexts x {mo,mtext}; 10 locale histories (session under A, one expression, switch to B: must equal a fresh B session). distinct_nontrivial = distinct (locale, number, context, spelling) cases compared",
         assumptions=["spellings where a separator is glued to a neighbouring <mn> are outside the space (documented: such an <mn> is taken as deliberately tokenised)",
